@@ -6,7 +6,8 @@
 (* wakers_lock operations -- must be the next step of the recording thread   *)
 (* in UniChan, and what the API returned must be what the model computed.    *)
 (* Entry points covered: send, poll (alone or inside a `drive` task),        *)
-(* cancel_all_streams.                                                       *)
+(* cancel_all_streams, close (gracefully_end_all_streams + is_channel_open + *)
+(* running_streams_count), drop of a stream.                                 *)
 (***************************************************************************)
 EXTENDS UniChan, TraceBase
 
@@ -24,6 +25,8 @@ TReset == /\ Ev.k = "reset"
           /\ waker' = [s \in Streams |-> FALSE] /\ wlock' = FALSE /\ keep' = [s \in Streams |-> TRUE]
           /\ notified' = [s \in Streams |-> FALSE]
           /\ stats' = [acc |-> 0, rej |-> 0, del |-> 0]
+          /\ count' = MaxS /\ vac' = <<>> /\ vlock' = FALSE /\ slock' = FALSE /\ used' = [j \in Streams |-> j] /\ finished' = 0
+          /\ cx' = [p \in Procs |-> NoCx]
           /\ drv' = [p \in Procs |-> NoDrv]
 
 Stutter == UNCHANGED <<uvars, drv>>
@@ -32,10 +35,12 @@ TCall == /\ Ev.k = "call" /\ ~IsNopCall
          /\ IF Ev.x.op = "send" THEN CallSend(P, Ev.x.v) /\ UNCHANGED drv
             ELSE IF Ev.x.op = "poll" THEN CallPoll(P, Ev.x.s) /\ UNCHANGED drv
             ELSE IF Ev.x.op = "cancel_all" THEN CallCancel(P) /\ UNCHANGED drv
+            ELSE IF Ev.x.op = "close" THEN CallClose(P) /\ UNCHANGED drv
+            ELSE IF Ev.x.op = "drop_stream" THEN CallDrop(P, Ev.x.s) /\ UNCHANGED drv
             ELSE IF Ev.x.op = "drive"
             THEN /\ notified' = [notified EXCEPT ![Ev.x.s] = FALSE]           \* the task clears its notification before its first poll
                  /\ drv' = [drv EXCEPT ![P] = [on |-> TRUE, s |-> Ev.x.s, max |-> Ev.x.max, got |-> 0]]
-                 /\ UNCHANGED <<vars, cpc, cs, cres, waker, wlock, keep, stats>>
+                 /\ UNCHANGED <<vars, cpc, cs, cres, waker, wlock, keep, stats, smv>>
             ELSE Stutter
 
 \* return of a poll made by a drive: an item with more to come -> the notification is cleared right away (before the next poll is called)
@@ -46,7 +51,7 @@ TRetPoll ==
     /\ cpc' = [cpc EXCEPT ![P] = "idle"]
     /\ (IF pc[P] = "ret" THEN Ret(P) ELSE UNCHANGED vars)
     /\ stats' = [stats EXCEPT !.del = IF cres[P] = "item" THEN @ + 1 ELSE @]
-    /\ UNCHANGED <<cs, cres, waker, wlock, keep>>
+    /\ UNCHANGED <<cs, cres, waker, wlock, keep, smv>>
     /\ IF drv[P].on /\ Ev.x.r = "item"
        THEN /\ drv' = [drv EXCEPT ![P].got = @ + 1]
             /\ notified' = IF drv[P].got + 1 < drv[P].max THEN [notified EXCEPT ![drv[P].s] = FALSE] ELSE notified
@@ -58,6 +63,12 @@ TRetOther ==
        THEN cpc[P] = "cret" /\ (Ev.x.ok <=> cres[P] = "ok") /\ ChanRet(P) /\ UNCHANGED drv
        ELSE IF Ev.fn = "cancel_all"
        THEN cpc[P] = "cret" /\ ChanRet(P) /\ UNCHANGED drv
+       ELSE IF Ev.fn = "close"       \* what the real code answered is what the model computed
+       THEN /\ cpc[P] = "cret" /\ cres[P] = "closed"
+            /\ Ev.x.v = cx[P].left /\ Ev.x.running = cx[P].run /\ (Ev.x.open <=> cx[P].open)
+            /\ ChanRet(P) /\ UNCHANGED drv
+       ELSE IF Ev.fn = "drop_stream"
+       THEN cpc[P] = "cret" /\ cres[P] = "dropped" /\ ChanRet(P) /\ UNCHANGED drv
        ELSE IF Ev.fn = "drive"
        THEN drv' = [drv EXCEPT ![P] = NoDrv] /\ UNCHANGED uvars
        ELSE Stutter
@@ -79,7 +90,9 @@ RingOp ==
 SpinOp ==   \* a publication / release / lock attempt before its turn: nothing changes
   \/ IsOp("try_publish_leaked_internal", "tail", "cas") /\ ~Ev.ok /\ pc[P] = "E5" /\ tail # reg[P].slot
   \/ IsOp("release_leaked_internal", "head", "cas") /\ ~Ev.ok /\ pc[P] = "D4" /\ head # reg[P].slot
-  \/ Ev.k = "op" /\ Ev.o = "cas" /\ ~Ev.ok /\ cpc[P] \in {"W2", "R2", "XW2"} /\ wlock
+  \/ Ev.k = "op" /\ Ev.o = "cas" /\ ~Ev.ok /\ cpc[P] \in {"W2", "R2", "XW2", "FW2", "P1"} /\ wlock
+  \/ Ev.k = "op" /\ Ev.o = "cas" /\ ~Ev.ok /\ cpc[P] = "P5" /\ vlock
+  \/ Ev.k = "op" /\ Ev.o = "cas" /\ ~Ev.ok /\ cpc[P] = "Y1" /\ slock
 
 IsLockCas == Ev.k = "op" /\ Ev.o = "cas" /\ Ev.ok /\ Ev.a = 0 /\ Ev.b = 1
 IsUnlockSt == Ev.k = "op" /\ Ev.o = "st" /\ Ev.a = 0
@@ -87,10 +100,22 @@ IsUnlockSt == Ev.k = "op" /\ Ev.o = "st" /\ Ev.a = 0
 TOp ==
   \/ RingOp /\ ChanRing(P) /\ UNCHANGED drv
   \/ SpinOp /\ Stutter
-  \/ IsY("wake_stream", "sm.wake.peek") /\ (WakePeek(P) \/ CancelWakePeek(P)) /\ UNCHANGED drv
-  \/ Ev.fn = "wake_stream" /\ IsLockCas /\ (WakeLock(P) \/ CancelWakeLock(P)) /\ UNCHANGED drv
-  \/ Ev.fn = "wake_stream" /\ IsUnlockSt /\ (WakeUnlock(P) \/ CancelWakeUnlock(P)) /\ UNCHANGED drv
-  \/ IsY("keep_stream_running", "sm.keep.read") /\ KeepRead(P) /\ UNCHANGED drv
+  \/ IsY("wake_stream", "sm.wake.peek") /\ (WakePeek(P) \/ CancelWakePeek(P) \/ CloseWakePeek(P)) /\ UNCHANGED drv
+  \/ Ev.fn = "wake_stream" /\ IsLockCas /\ (WakeLock(P) \/ CancelWakeLock(P) \/ CloseWakeLock(P)) /\ UNCHANGED drv
+  \/ Ev.fn = "wake_stream" /\ IsUnlockSt /\ (WakeUnlock(P) \/ CancelWakeUnlock(P) \/ CloseWakeUnlock(P)) /\ UNCHANGED drv
+  \/ IsY("keep_stream_running", "sm.keep.read") /\ (KeepRead(P) \/ CloseOpenRead(P)) /\ UNCHANGED drv
+  \/ IsOp("available_elements_count", "tail", "ld") /\ WV(Ev.r) = tail /\ CloseLenTail(P) /\ UNCHANGED drv
+  \/ IsOp("available_elements_count", "head", "ld") /\ WV(Ev.r) = head /\ CloseLenHead(P) /\ UNCHANGED drv
+  \/ IsOp("running_streams_count", "used_streams_count", "ld") /\ Ev.r = count /\ (CloseRunLoad(P) \/ CloseRunRet(P) \/ CloseRunning(P)) /\ UNCHANGED drv
+  \/ Ev.fn = "report_stream_dropped" /\ Ev.fld = "wakers_lock" /\ IsLockCas /\ DropWLock(P) /\ UNCHANGED drv
+  \/ Ev.fn = "report_stream_dropped" /\ Ev.fld = "wakers_lock" /\ IsUnlockSt /\ DropWUnlock(P) /\ UNCHANGED drv
+  \/ IsOp("report_stream_dropped", "finished_streams_count", "fa") /\ Ev.r = finished /\ DropCountA(P) /\ UNCHANGED drv
+  \/ IsOp("report_stream_dropped", "used_streams_count", "fs") /\ Ev.r = count /\ DropCountB(P) /\ UNCHANGED drv
+  \/ Ev.fld = "concurrency_guard" /\ IsLockCas /\ DropVPush(P) /\ UNCHANGED drv
+  \/ Ev.fld = "concurrency_guard" /\ IsUnlockSt /\ DropVUnlock(P) /\ UNCHANGED drv
+  \/ Ev.fld = "streams_lock" /\ IsLockCas /\ SyncLock(P) /\ UNCHANGED drv
+  \/ IsY("sync_vacant_and_used_streams", "sm.used.write") /\ SyncWrite(P) /\ UNCHANGED drv
+  \/ Ev.fld = "streams_lock" /\ IsUnlockSt /\ SyncUnlock(P) /\ UNCHANGED drv
   \/ IsY("register_stream_waker", "sm.waker.peek") /\ WakerPeek(P) /\ UNCHANGED drv
   \/ Ev.fn = "register_stream_waker" /\ IsLockCas /\ WakerLock(P) /\ UNCHANGED drv
   \/ Ev.fn = "register_stream_waker" /\ IsUnlockSt /\ WakerUnlock(P) /\ UNCHANGED drv
@@ -98,13 +123,15 @@ TOp ==
   \/ IsY("cancel_stream", "sm.keep.clear") /\ CancelClear(P) /\ UNCHANGED drv
 
 TNote == \/ Ev.k = "unpark" /\ drv[P].on /\ notified[drv[P].s]
-            /\ notified' = [notified EXCEPT ![drv[P].s] = FALSE] /\ UNCHANGED <<vars, cpc, cs, cres, waker, wlock, keep, stats, drv>>
+            /\ notified' = [notified EXCEPT ![drv[P].s] = FALSE] /\ UNCHANGED <<vars, cpc, cs, cres, waker, wlock, keep, stats, smv, drv>>
          \/ Ev.k = "park" /\ drv[P].on /\ cres[P] = "pending" /\ Stutter
+         \/ Ev.k = "slept" /\ CloseSlept(P) /\ UNCHANGED drv
          \/ Ev.k \in {"wake", "suspended", "panic", "final"} /\ Stutter
 
 BadOf == IF ~InvLinearizable THEN "InvLinearizable"
          ELSE IF ~InvBounds THEN "InvBounds"
          ELSE IF ~InvWakersLock THEN "InvWakersLock"
+         ELSE IF ~InvSmLocks THEN "InvSmLocks"
          ELSE ""
 
 TraceNext == /\ l <= Len(Rec)
